@@ -8,8 +8,8 @@ extern "C" {
 #include "containers/qlisttbl.h"
 }
 
-enum { LT_PUT, LT_GET, LT_GETMULTI, LT_REMOVE, LT_WALK, LT_WALKREMOVE, LT_SORT, LT_SIZE, LT_CLEAR, LT_SAVELOAD, LT_LOCKEDWALK, LT_DEBUG };
-static const std::vector<std::string> LT_NAMES = {"put", "get", "getmulti", "remove", "walk", "walkremove", "sort", "size", "clear", "saveload", "lockedwalk", "debug"};
+enum { LT_PUT, LT_GET, LT_GETMULTI, LT_REMOVE, LT_WALK, LT_WALKREMOVE, LT_SORT, LT_SIZE, LT_CLEAR, LT_SAVELOAD, LT_LOCKEDWALK, LT_DEBUG, LT_LOADFILE, LT_SAVEFULL };
+static const std::vector<std::string> LT_NAMES = {"put", "get", "getmulti", "remove", "walk", "walkremove", "sort", "size", "clear", "saveload", "lockedwalk", "debug", "loadfile", "save_disk_full"};
 enum { NULLKEY = 0x100, NULLDATA = 0x200, SELFREF = 0x400 };
 enum { O_UNIQUE = 1, O_CI = 2, O_TOP = 4, O_FWD = 8 };
 
@@ -40,6 +40,7 @@ struct LtWorld : World {
         bool mtm = mode == "threads";
         c.set("U", mtm ? r.pick(std::vector<int>{2, 3}) : r.pick(std::vector<int>{2, 3, 4, 6, 9}));
         c.set("opts", r.below(16));
+        c.set("fullcoll", r.chance(1, 4) ? 1 : 0);
         c.set("useed", (long)r.below(1000000));
         c.set("ts", (mtm || mode == "lockbal") ? 1 : (r.chance(1, 5) ? 1 : 0));
         c.set("mt", mtm ? 1 : 0);
@@ -51,7 +52,8 @@ struct LtWorld : World {
         int Uc = (int)cfg.get("U");
         if (mtm) op.k = wpick(r, {{40, LT_PUT}, {20, LT_GET}, {8, LT_GETMULTI}, {20, LT_REMOVE}, {4, LT_CLEAR}, {8, LT_LOCKEDWALK}});
         else op.k = wpick(r, {{40, LT_PUT}, {12, LT_GET}, {8, LT_GETMULTI}, {10, LT_REMOVE}, {8, LT_WALK}, {6, LT_WALKREMOVE}, {4, LT_SORT}, {4, LT_SIZE}, {1, LT_CLEAR},
-                              {(prop == "C15" || prop == "C14") ? 1 : 5, LT_SAVELOAD}, {c14 ? 3 : 0, LT_DEBUG}, {c14 ? 6 : 0, LT_LOCKEDWALK}});
+                              {(prop == "C15" || prop == "C14") ? 1 : 5, LT_SAVELOAD}, {c14 ? 3 : 0, LT_DEBUG}, {c14 ? 6 : 0, LT_LOCKEDWALK},
+                              {(prop == "C08" || prop == "C11") ? 3 : 0, LT_LOADFILE}, {c14 ? 3 : 0, LT_SAVEFULL}});
         op.a = (int)r.below((uint32_t)Uc);
         switch (op.k) {
         case LT_PUT: {
@@ -68,13 +70,14 @@ struct LtWorld : World {
         case LT_LOCKEDWALK: op.d = (int)r.below(2); break;
         case LT_WALKREMOVE: op.b = (int)r.below(1 << 16); op.d = (int)r.below(2) << 1; if (r.chance(1, 4)) op.b = 0xffff; break;
         case LT_SAVELOAD: op.d = (int)r.below(2); break;
+        case LT_LOADFILE: op.b = (int)r.below(1 << 20); op.c = r.range(0, 5); op.d = (int)r.below(8); break;
         default: break;
         }
         if (!mtm && op.k == LT_PUT && r.chance(1, 25)) { op.d = SELFREF; return op; }
         if (c14 && r.chance(1, 8) && (op.k == LT_PUT || op.k == LT_GET || op.k == LT_REMOVE)) op.d |= r.chance(1, 2) ? NULLKEY : (op.k == LT_PUT ? NULLDATA : NULLKEY);
         return op;
     }
-    bool is_mutation(const Op &op) const override { return op.k == LT_PUT || op.k == LT_REMOVE || op.k == LT_WALKREMOVE || op.k == LT_SORT || op.k == LT_CLEAR; }
+    bool is_mutation(const Op &op) const override { return op.k == LT_LOADFILE || op.k == LT_PUT || op.k == LT_REMOVE || op.k == LT_WALKREMOVE || op.k == LT_SORT || op.k == LT_CLEAR; }
 
     void init(const Cfg &c) override {
         cfg = c; opts = (int)c.get("opts"); threadsafe = c.get("ts") != 0; mt = c.get("mt") != 0;
@@ -83,6 +86,11 @@ struct LtWorld : World {
         static const char *bases[] = {"key", "ab", "x", "name1", "zz"};
         std::set<Bytes> seen; keys.clear();
         int guard = 0;
+        if (c.get("fullcoll") && U >= 2 && !collision_pairs().empty()) {
+            // two different keys whose full 32-bit hashes are equal (the table caches a hash per entry)
+            auto &pr = collision_pairs()[r.below((uint32_t)collision_pairs().size())];
+            keys.push_back(pr.first); keys.push_back(pr.second); seen.insert(pr.first); seen.insert(pr.second);
+        }
         while ((int)keys.size() < U && guard++ < 1000) {
             Bytes k = bases[r.below(guard > 200 ? 5 : 2 + (uint32_t)(U > 4))];
             for (auto &ch : k) if (r.chance(1, 2)) ch = (char)toupper(ch);
@@ -121,9 +129,27 @@ struct LtWorld : World {
     }
     void sut_abandon() override { t = nullptr; pending = nullptr; }
     void *sut_mutex() override { return t ? t->qmutex : nullptr; }
+    bool sut_user_lock() override { InSutLock s; t->lock(t); return true; }
     void sut_force_unlock() override { InSutLock s; t->unlock(t); }
     void sut_probe(Ctx &) override { InSut s; t->get(t, "probe-key", nullptr, false); }
 
+    // entries of a hand-written file for LT_LOADFILE: (name, value) with printable values; the same function feeds the model
+    std::vector<Ent> file_entries(const Op &op) const {
+        std::vector<Ent> es; Rng r((uint64_t)op.b * 977 + 5);
+        for (int i = 0; i < op.c; i++) { Bytes v = gen_value((int)r.below(1 << 20), r.range(2, 12), 1); es.push_back(Ent(key((int)r.below(64)), v)); }
+        return es;
+    }
+    Bytes file_text(const Op &op) const {
+        Bytes t = (op.d & 2) ? "# written by hand\n\n" : "";
+        auto es = file_entries(op);
+        for (size_t i = 0; i < es.size(); i++) {
+            bool pad = (op.d & 4) != 0;
+            t += (pad ? "  " : "") + es[i].first + (pad ? " = " : "=") + Bytes(es[i].second.c_str()) + (pad ? "\t" : "");
+            if (i + 1 < es.size() || !(op.d & 1)) t += "\n";
+            if ((op.d & 2) && i == 0) t += "   \n# comment\n";
+        }
+        return t;
+    }
     Bytes entries_of(qlisttbl_t *tb) {
         Bytes o; size_t cnt = 0;
         for (qlisttbl_obj_t *e = tb->first; e; e = e->next) { enc(o, Bytes(e->name)); enc(o, Bytes((const char *)e->data, e->size)); if (++cnt > tb->num + 4) break; }
@@ -218,10 +244,11 @@ struct LtWorld : World {
             const char *kp = filtered ? (const char *)kb.p : nullptr;
             if (op.k == LT_LOCKEDWALK) { InSutLock s; t->lock(t); }
             qlisttbl_obj_t o; memset(&o, 0, sizeof o);
-            Bytes out; size_t cnt = 0, guard = t->num * 2 + 8; int removed = 0; bool failed = false;
+            Bytes out; size_t cnt = 0, guard = t->num * 2 + 8; int removed = 0; bool failed = false; int fired_seen = sim_fault_fired(), retries = 0;
             for (;;) {
                 bool more; { InSut s; more = t->getnext(t, &o, kp, newmem); }
-                if (!more) { if (sim_fault_fired() > 0) failed = true; break; }
+                if (!more && newmem && sim_fault_fired() > fired_seen && retries < 1) { fired_seen = sim_fault_fired(); retries++; x.st.add("probe.walk_step_retried_after_enomem"); continue; }
+                if (!more) { if (sim_fault_fired() > fired_seen) failed = true; break; }
                 Bytes nm(o.name), v((const char *)o.data, o.size);
                 enc(out, nm); enc(out, v);
                 if (newmem) { x.hold(o.name, nm + Bytes(1, '\0'), "listtbl.getnext(newmem).name"); x.hold(o.data, v, "listtbl.getnext(newmem).data"); }
@@ -260,6 +287,28 @@ struct LtWorld : World {
             x.st.add("probe.saveload");
             if (sim_fault_fired() > 0 && n < 0) return R_fail(out);
             return R_ok(out);
+        }
+        case LT_LOADFILE: {
+            // a hand-written file: comments, blank lines, blanks around names and values, optionally no newline after the last line
+            std::string path = scratch + "/lt-hand.txt";
+            Bytes text = file_text(op);
+            { FILE *f = fopen(path.c_str(), "w"); if (f) { fwrite(text.data(), 1, text.size(), f); fclose(f); } }
+            Bookkeeping bk;     // load is not an operation C15 quantifies over
+            ssize_t n; { InSut s; n = t->load(t, path.c_str(), '=', false); }
+            unlink(path.c_str());
+            x.st.add((op.d & 1) ? "probe.loaded_file_without_final_newline" : "probe.loaded_hand_written_file");
+            return R_ok("cnt=" + num((long long)n));
+        }
+        case LT_SAVEFULL: {
+            // the disk fills up while saving: every write() of this save fails with ENOSPC
+            std::string path = scratch + "/lt-full.txt";
+            Bookkeeping bk;
+            sim_write_fail(1000000);
+            { InSut s; t->save(t, path.c_str(), '=', true); }
+            sim_write_fail(0);
+            unlink(path.c_str());
+            x.st.add("fault.write.planned");
+            return R_ok();
         }
         case LT_DEBUG: {
             FILE *f = fopen("/dev/null", "w"); bool ok;
@@ -384,6 +433,15 @@ Result LtModel::apply(const Op &op) {
         for (auto &e : v) { enc(out, e.first); enc(out, e.second); }
         return R_ok(out);
     }
+    case LT_LOADFILE: {
+        auto es = w->file_entries(op);
+        for (auto &e : es) {
+            if (w->opts & O_UNIQUE) v.erase(std::remove_if(v.begin(), v.end(), [&](const Ent &o) { return match(o.first, e.first); }), v.end());
+            v.push_back(e);      // load always appends at the bottom
+        }
+        return R_ok("cnt=" + num((long long)es.size()));
+    }
+    case LT_SAVEFULL: return R_ok();
     case LT_DEBUG: return R_ok();
     }
     return R_ok();
